@@ -412,7 +412,8 @@ func c15Get(c *eng.Ctx) {
 	}
 	// err stored on both edges with the builder's error
 	for _, st := range errStores {
-		c.Check(eng.Same(st.Val, berr), "R-C15-5", get, st.Pos(), eng.InstrStr(st), "Err reports the error of the latest rebuild", "stores "+eng.ValStr(st.Val))
+		// the builder's error itself, or nil where that error is known to be nil
+		c.Check(eng.Same(st.Val, berr) || (eng.IsNilConst(eng.Origin(st.Val)) && okErr(st)), "R-C15-5", get, st.Pos(), eng.InstrStr(st), "Err reports the error of the latest rebuild", "stores "+eng.ValStr(st.Val))
 	}
 	hit, path := eng.Search(get, build, nil, func(x ssa.Instruction) bool {
 		for _, st := range errStores {
